@@ -61,6 +61,9 @@ struct Scen {
     policy: Vec<Policy>,
     /// per node: (at_ms, command)
     script: Vec<Vec<(u64, Kind)>>,
+    /// node 1 has a dial to a stale (silent) address of node 0 in flight when node 0 connects to
+    /// it: the dial fails ~2 s later, in the middle of the storm, for a peer that is connected
+    stale_dial: bool,
 }
 
 impl Scen {
@@ -69,6 +72,7 @@ impl Scen {
             "sync_size": self.sync_size, "async_size": self.async_size, "max_size": self.max_size, "chaos_pct": self.chaos_pct, "storm_ms": self.storm_ms,
             "policy": self.policy.iter().map(|p| format!("{p:?}")).collect::<Vec<_>>(),
             "script": self.script.iter().map(|s| s.iter().map(|(t, k)| json!([t, format!("{k:?}")])).collect::<Vec<_>>()).collect::<Vec<_>>(),
+            "stale_dial": self.stale_dial,
             "note": "replay regenerates the scenario from `seed`"})
     }
 }
@@ -340,6 +344,7 @@ fn gen(rng: &mut Rng) -> Scen {
         storm_ms,
         policy: (0..nnodes).map(|_| *rng.pick(&[Policy::Accept, Policy::Accept, Policy::Mixed, Policy::Mixed, Policy::Reject, Policy::Delayed(200), Policy::Never])).collect(),
         script,
+        stale_dial: false,
     };
     // directed family (1 in 6): a validation prompt left unanswered across a connection loss and
     // reconnect, answered late (in the quiesce phase) while the new connection is up
@@ -354,6 +359,7 @@ fn gen(rng: &mut Rng) -> Scen {
         }
         s.script[0].sort_by_key(|c| c.0);
     }
+    s.stale_dial = rng.chance(0.3);
     s
 }
 
@@ -435,6 +441,22 @@ async fn run_scenario(s: Scen, exec: ChaosExecutor, lag: LagMonitor) -> RunOut {
     async fn connect(i: usize, j: usize, nodes: &[Node], proxies: &HashMap<(usize, usize), Proxy>) -> Result<(), String> {
         let a = tcp_multiaddr(proxies[&(i, j)].addr, Some(nodes[j].peer));
         nodes[i].dial_address(a).await
+    }
+    // a listener that accepts and never answers: node 1's stale address of node 0
+    let mut _stale_listener = None;
+    if s.stale_dial {
+        if let Ok(l) = tokio::net::TcpListener::bind("127.0.0.1:0").await {
+            if let Ok(sa) = l.local_addr() {
+                let _ = nodes[1].dial_address(tcp_multiaddr(sa, Some(peers[0]))).await;
+                _stale_listener = Some(tokio::spawn(async move {
+                    let mut held = Vec::new();
+                    while let Ok((sock, _)) = l.accept().await {
+                        held.push(sock);
+                    }
+                }));
+                tokio::time::sleep(Duration::from_millis(30)).await;
+            }
+        }
     }
     for i in 0..s.nnodes {
         for j in (i + 1)..s.nnodes {
